@@ -39,21 +39,21 @@ func init() {
 // ---------- harness-owned stream ----------
 
 type hstream struct {
-	mu      sync.Mutex
-	cond    *sync.Cond
-	buf     []byte
-	err     error // returned by Read once buf is empty
-	idle    bool  // a Read is blocked on an empty buffer: the endpoint is waiting for the next frame
-	writes  [][]byte // bytes handed to Write, frame by frame (also when the call failed)
-	wire    []byte   // bytes the stream accepted (what a peer would have received)
-	wmode   int      // write fault in force (wm* constants)
-	wfaults int      // Write calls that returned an error or made no progress
-	blockedW int     // Write calls blocked right now (wmBlock)
-	wcond   *sync.Cond
-	cerr    error    // returned by Close
-	closes  int
-	yield   bool // Write yields to other goroutines before recording (C10)
-	onWrite func()
+	mu       sync.Mutex
+	cond     *sync.Cond
+	buf      []byte
+	err      error    // returned by Read once buf is empty
+	idle     bool     // a Read is blocked on an empty buffer: the endpoint is waiting for the next frame
+	writes   [][]byte // bytes handed to Write, frame by frame (also when the call failed)
+	wire     []byte   // bytes the stream accepted (what a peer would have received)
+	wmode    int      // write fault in force (wm* constants)
+	wfaults  int      // Write calls that returned an error or made no progress
+	blockedW int      // Write calls blocked right now (wmBlock)
+	wcond    *sync.Cond
+	cerr     error // returned by Close
+	closes   int
+	yield    bool // Write yields to other goroutines before recording (C10)
+	onWrite  func()
 }
 
 func newHStream() *hstream {
@@ -191,6 +191,7 @@ func (s *hstream) waitIdle(d time.Duration) bool {
 	}
 	return true
 }
+
 // waitQuiet: like waitIdle, but also returns when a Write of the endpoint is blocked (blocked == true).
 // stop (may be nil) ends the wait when it is closed or receives.
 func (s *hstream) waitQuiet(d time.Duration, needIdle bool, stop <-chan struct{}) (blocked bool, ok bool) {
@@ -547,7 +548,7 @@ type pendingMsg struct {
 }
 
 type runner17 struct {
-	pending *pendingMsg
+	pending  *pendingMsg
 	e        net.EndPoint
 	dispatch func(*net.Message) error
 	process  func()
@@ -670,6 +671,7 @@ func runScript(idx int, sc c17script) *caseObs {
 					case <-h.entered:
 					case <-time.After(opTimeout):
 						obs.End = 2
+						noteHang()
 						r.fail("the close callback of handler h%d was not invoked within %v of the shutdown", h.idx, opTimeout)
 						return false
 					}
@@ -680,6 +682,7 @@ func runScript(idx int, sc c17script) *caseObs {
 			ok := waitUntil(opTimeout, func() bool { h.mu.Lock(); defer h.mu.Unlock(); return h.pull() })
 			if !ok {
 				obs.End = 2
+				noteHang()
 				r.fail("the queue of handler h%d was not closed within %v of the shutdown", h.idx, opTimeout)
 				return false
 			}
@@ -1093,6 +1096,7 @@ loop:
 			ok := waitUntil(opTimeout, func() bool { h.mu.Lock(); defer h.mu.Unlock(); return h.pull() })
 			if !ok {
 				obs.End = 2
+				noteHang()
 				r.fail("the queue of handler h%d was not closed within %v of its close callback returning", h.idx, opTimeout)
 				break loop
 			}
@@ -1548,7 +1552,7 @@ func exhScript(n, k int, name string) c17script {
 
 const (
 	exhModelLetters, exhModelLen = 10, 5 // compared with the model in Coq
-	exhDeepLetters, exhDeepLen   = 7, 7 // oracle-only
+	exhDeepLetters, exhDeepLen   = 7, 7  // oracle-only
 )
 
 func scriptFor(seed uint64, tier string, k int) c17script {
